@@ -211,7 +211,7 @@ func tryConvertViaJSON(fk errdef.FieldKey, value any, targetType reflect.Type) (
 		if targetType.Elem().Kind() != reflect.Struct {
 			return nil, false, nil
 		}
-	} else if kind != reflect.Struct && kind != reflect.Map && kind != reflect.Slice {
+	} else if kind != reflect.Struct && kind != reflect.Map && kind != reflect.Slice && kind != reflect.Array {
 		return nil, false, nil
 	}
 
